@@ -1,6 +1,6 @@
 (* C05 -- Protobuf encode/decode round trip and encoded_len agreement.
    Only statements, each closed by [exact] of a lemma proved in Proofs/, with Print Assumptions beneath. *)
-From PVPb Require Import Wire Codec Msg Proofs.VarintP Proofs.WireP Proofs.CastP Proofs.CodecP Proofs.MsgLenP.
+From PVPb Require Import Wire Codec Msg Proofs.VarintP Proofs.WireP Proofs.CastP Proofs.CodecP Proofs.MsgLenP Proofs.MsgRtP.
 Open Scope Z_scope.
 
 (* every u64, every decode path (fast path / unrolled slice path / byte-at-a-time slow path; which one
@@ -103,8 +103,31 @@ Theorem C05_msg_len : forall edv sc, schema_ok sc = true -> forall d i v,
 Proof. exact msg_len_correct. Qed.
 Print Assumptions C05_msg_len.
 
-(* NOT PROVED (validated by the generated-message correspondence and the reference codec on every run):
-   C05_msg_rt : schema_ok sc -> wt_msg d sc i v = true -> lossless v ->
-                msg_decode sc i (mkR (enc_msg edv d sc i v) a) = OOk v (mkR [] _)
-   ([lossless] excludes the two places where the encoder itself drops information: -0.0 as a float / double map value
-   without pb-encode-default-value, finding F-05a). *)
+(* C05_msg_rt: Message::decode (Message::encode x) = x -- every well-formed schema, both settings of
+   pb-encode-default-value, every typed value x of every message type (nested messages, repeated scalars and messages,
+   maps with default skipping, oneofs), the whole input consumed.  Side conditions, each of them necessary:
+   the bytes fit in a usize; the value is at most (RECURSION_LIMIT + 1) / 2 levels deep (an embedded message costs one
+   unit of the decoder's recursion budget, a map entry with a message value two: deeper values encode but do not
+   decode); and [lossless]: wherever the encoder skips a map value because it `== V::default()`, the value IS the
+   default (PartialEq calls -0.0 a default: finding F-05a, refuted below).  With the feature on, [lossless] is vacuous. *)
+Theorem C05_msg_rt : forall edv sc d i v a, schema_ok sc = true -> wt_msg d sc i v = true -> lossless edv d sc i v ->
+  zlen (enc_msg edv d sc i v) < two64 -> 2 * Z.of_nat d - 1 <= recursion_limit ->
+  exists a', msg_decode sc i (mkR (enc_msg edv d sc i v) a) = OOk v (mkR [] a').
+Proof. exact msg_roundtrip. Qed.
+Print Assumptions C05_msg_rt.
+
+Theorem C05_msg_rt_encode_default_value : forall sc d i v a, schema_ok sc = true -> wt_msg d sc i v = true ->
+  zlen (enc_msg true d sc i v) < two64 -> 2 * Z.of_nat d - 1 <= recursion_limit ->
+  exists a', msg_decode sc i (mkR (enc_msg true d sc i v) a) = OOk v (mkR [] a').
+Proof. exact msg_roundtrip_edv. Qed.
+Print Assumptions C05_msg_rt_encode_default_value.
+
+(* F-05a: without [lossless] the round trip fails when the feature is off -- map<int32, double> { 5: -0.0 } *)
+Theorem C05_msg_rt_negzero_refuted :
+  let sc := [[FMap 1 TYPE_INT32 (TScalar TYPE_DOUBLE)]] in
+  let v := VL NMsg [VL NMap [VL NPair [VI 5; VI 9223372036854775808]]] in
+  schema_ok sc = true /\ wt_msg 1 sc 0 v = true /\
+  msg_decode sc 0 (mkR (enc_msg false 1 sc 0 v) 0) = OOk (VL NMsg [VL NMap [VL NPair [VI 5; VI 0]]]) (mkR [] 1) /\
+  msg_decode sc 0 (mkR (enc_msg true 1 sc 0 v) 0) = OOk v (mkR [] 1).
+Proof. exact msg_roundtrip_negzero_refuted. Qed.
+Print Assumptions C05_msg_rt_negzero_refuted.
